@@ -329,11 +329,24 @@ def edit_ssc(rng, sf, nops):
                 ks = [k for k in c.keys() if k != nk]
                 if ks:
                     del c[rng.choice(ks)]
-            elif q < 0.9:
+            elif q < 0.86:
                 # move the note data to another position: delete and re-insert
                 v = c[nk]
                 del c[nk]
                 c[nk if rng.random() < 0.7 else ("NOTES2" if nk == "NOTES" else "NOTES")] = v
+            elif q < 0.94:
+                # rename the note data in three steps, passing through a state with BOTH spellings: copy it under the
+                # other spelling, (maybe) add a property meanwhile, then delete the old spelling
+                other = "NOTES2" if nk == "NOTES" else "NOTES"
+                c[other] = c[nk]
+                if rng.random() < 0.7:
+                    c[cc.rand_key(rng, forbid=("NOTEDATA", "NOTES", "NOTES2"))] = cc.rand_value(rng)
+                if rng.random() < 0.3:
+                    setattr(c, rng.choice(cattrs), cc.rand_value(rng))
+                if rng.random() < 0.5:
+                    del c[nk]
+                else:
+                    c.pop(nk)
             else:
                 ks = list(c.keys())
                 if len(ks) > 1:
